@@ -6,6 +6,7 @@ import (
 	"fmt"
 	"image"
 	"image/color"
+	"strconv"
 	"testing"
 
 	"github.com/makiuchi-d/gozxing"
@@ -25,6 +26,15 @@ type Case struct {
 	ReqW    int    `json:"req_w"`
 	ReqH    int    `json:"req_h"`
 	Margin  int    `json:"margin"` // -1: no hint
+	// StrMargin: the MARGIN hint is given as a decimal string, which the writers accept alike
+	StrMargin bool `json:"margin_as_string,omitempty"`
+}
+
+func marginHint(c Case) interface{} {
+	if c.StrMargin {
+		return strconv.Itoa(c.Margin)
+	}
+	return c.Margin
 }
 
 // expected builds the image the property's formula prescribes from the module matrix.
@@ -93,7 +103,7 @@ func check(raw json.RawMessage) error {
 		hints := map[gozxing.EncodeHintType]interface{}{}
 		margin := 4
 		if c.Margin >= 0 {
-			hints[gozxing.EncodeHintType_MARGIN] = c.Margin
+			hints[gozxing.EncodeHintType_MARGIN] = marginHint(c)
 			margin = c.Margin
 		}
 		code, err := encoder.Encoder_encode(c.Content, decoder.ErrorCorrectionLevel_L, hints)
@@ -183,7 +193,7 @@ func check(raw json.RawMessage) error {
 	hints := map[gozxing.EncodeHintType]interface{}{}
 	q := sym.DefaultMargin
 	if c.Margin >= 0 {
-		hints[gozxing.EncodeHintType_MARGIN] = c.Margin
+		hints[gozxing.EncodeHintType_MARGIN] = marginHint(c)
 		q = c.Margin
 	}
 	bm, err := w.Encode(c.Content, sym.Format, c.ReqW, c.ReqH, hints)
@@ -347,6 +357,7 @@ func TestCheck(t *testing.T) {
 			cs := Case{Writer: w, Content: contentFor(w, rng), Margin: -1}
 			if w != "DM" && rapid.Bool().Draw(t, "hasmargin") {
 				cs.Margin = rapid.IntRange(0, 20).Draw(t, "margin")
+				cs.StrMargin = rapid.IntRange(0, 3).Draw(t, "strmargin") == 0
 			}
 			nw, nh := natural(w, cs.Content, cs.Margin)
 			if nw == 0 {
